@@ -101,7 +101,7 @@ func TestExplore(t *testing.T) {
 			return
 		}
 		bound := s.quickBound
-		budget := 40 * time.Second
+		budget := 25 * time.Second
 		if ev.Thorough() {
 			bound = s.thoroughBound
 			budget = 12 * time.Minute
